@@ -305,6 +305,10 @@ func (o *OperandPegImpl) CalcOffsetByteSize() int {
 			if o.bitMode == cpu.MODE_16BIT && memInfo.BaseReg == "BP" && memInfo.IndexReg == "" {
 				return 1 // disp8=0 for [BP]
 			}
+			// 32bitモードで 67h 付きの [BP] を使う場合も同じ (16ビットの ModR/M 表に [BP] 単独はない)
+			if memInfo.BaseReg == "BP" && memInfo.IndexReg == "" {
+				return 1 // disp8=0 for [BP]
+			}
 			// [EBP] も同様に ModRM mode 01 + disp8=0 でエンコードされる
 			if memInfo.BaseReg == "EBP" && memInfo.IndexReg == "" {
 				return 1 // disp8=0 for [EBP]
